@@ -39,8 +39,6 @@ TOL = 1e-9
 TOL_REL = 1e-8
 MAX_SIZE = 1200
 ALL_SIZES = [12, 24] + list(range(25, MAX_SIZE + 1))
-PRIMES = [3, 5, 7, 11, 13, 17, 19, 23, 29, 31, 37, 41, 43, 47, 53, 59, 61]   # partition labels only
-ODD_COMPOSITES = [9, 15, 21, 25, 27, 33, 35, 45]                            # make the "iff" non-vacuous
 
 
 # ------------------------------------------------------------------------------ the model
@@ -115,7 +113,7 @@ DEV_RUNS = {
     "NSquaredPhase": (["zc"], dict(ZcNs={5, 7}), "ZeroAutocorrelation"),
     "ShiftDenominator8": (["shift"], dict(ShiftLs={24}, ShiftDs={12}), "ShiftOrthogonality"),
     "TapWindowOffByOne": (["est"], dict(EstFams={"srs", "dmrs"}, EstLs={24, 48}, EstNrx={1, 2}, EstVars={1, 2}), "EstimateExact"),
-    "LsGramNotConjugated": (["ls"], dict(NLs=12), "LsExact"),
+    "LsGramNotConjugated": (["ls"], dict(NLs=40), "LsExact"),
 }
 
 
